@@ -1475,7 +1475,7 @@ func c07Cfgs(env *mc.Env) []*c07Cfg {
 			variants: []c07Variant{base, {"rdma1-unhealthy", c07VUnhealthy, r1}, {"rdma1-removed", c07VRemoved, r1}, {"gpu1-unhealthy", c07VUnhealthy, g1}},
 			pods:     3, depthQ: 4, depthT: 8, share: 0.24},
 		{name: "hist-gpu2", gpus: 2, topo: true, scorer: "most", filtered: true, shapes: []string{"W1", "W2", "F50", "F25", "M2x50"},
-			variants: gpuVariants, pods: 3, unreserve: true, depthQ: 6, depthT: 12, share: 0.5},
+			variants: gpuVariants, pods: 3, unreserve: true, depthQ: 6, depthT: 10, share: 0.5},
 	}
 }
 
